@@ -194,10 +194,12 @@ def process_fn(asm, f, unit):
             if head2 != head:
                 asm.rewrites.append(("R1 dyn parameter -> impl", "%s:%d %s" % (where, fpA.start_line, f.name)))
                 head = head2
+    pending_where_subs = []
     for (pat, rep) in f.sig_sub:
         head2 = re.sub(pat, rep, head)
         if head2 == head:
-            raise LostAnchor("sig_sub /%s/ did not match in %s" % (pat, f.name))
+            pending_where_subs.append((pat, rep))
+            continue
         asm.rewrites.append(("signature substitution /%s/ -> %s" % (pat, rep), "%s:%d" % (where, fpA.start_line)))
         head = head2
     if f.rename:
@@ -213,6 +215,12 @@ def process_fn(asm, f, unit):
         if f.dyn:
             for rx, rep in R1:
                 wh = rx.sub(rep, wh)
+    for (pat, rep) in pending_where_subs:
+        wh2 = re.sub(pat, rep, wh)
+        if wh2 == wh:
+            raise LostAnchor("sig_sub /%s/ did not match in %s" % (pat, f.name))
+        asm.rewrites.append(("signature substitution /%s/ -> %s" % (pat, rep), "%s:%d" % (where, fpA.start_line)))
+        wh = wh2
     contract = "\n" + _clause_block("requires", f.requires) + _clause_block("ensures", f.ensures)
     if f.decreases:
         contract += "    decreases %s\n" % f.decreases
@@ -294,6 +302,26 @@ def process_fn(asm, f, unit):
             at = textA.find("\n", body0 + m.end())
             at = len(textA) if at < 0 else at + 1
             ed.insert(at, text.strip() + "\n", "hint")
+    for k, c in enumerate(f.claims):
+        pat, nth, text = c[0], c[1], c[2]
+        where_ = c[3] if len(c) > 3 else "after"
+        seg = textA[body0:]
+        ms = [m for m in re.finditer(pat, seg)]
+        if len(ms) < nth:
+            raise LostAnchor("%s::%s: claim anchor /%s/ #%d not found" % (f.file, f.name, pat, nth))
+        m = ms[nth - 1]
+        tag = "claim:%d" % k
+        if where_ == "before":
+            at = textA.rfind("\n", 0, body0 + m.start()) + 1
+            ed.insert(at, text.strip() + "\n", tag)
+        elif where_ == "at":
+            ed.insert(body0 + m.start(), text.strip() + " ", tag)
+        elif where_ == "atend":
+            ed.insert(body0 + m.end(), " " + text.strip() + " ", tag)
+        else:
+            at = textA.find("\n", body0 + m.end())
+            at = len(textA) if at < 0 else at + 1
+            ed.insert(at, text.strip() + "\n", tag)
     textB, originB = ed.apply()
     origin = _compose(originB, originA)
     meta = dict(kind="fn", fn=f.qname(), file=f.file, origin=origin, srctext=srctext)
@@ -364,6 +392,19 @@ def process_item(asm, x):
             raise LostAnchor("item sub /%s/ did not match in %s" % (pat, x.name))
         asm.rewrites.append(("item substitution /%s/ -> %s" % (pat, rep), "%s %s" % (x.file, x.name)))
         text = text2
+    # R7: one generated file, one module per source file: private enums / structs are made `pub` so that contracts in other modules can name them
+    m = re.search(r"(?m)^(\s*)(enum|struct)\s+" + re.escape(x.name) + r"\b", text)
+    if m and not re.search(r"(?m)^\s*pub(\([^)]*\))?\s+(enum|struct)\s+" + re.escape(x.name) + r"\b", text):
+        text = text[:m.start(2)] + "pub " + text[m.start(2):]
+        asm.rewrites.append(("R7 private item made pub", "%s %s" % (x.file, x.name)))
+    if x.ikind == "struct" and "{" in text:
+        # R7: fields of extracted structs are made `pub` as well (contracts of pub functions may then mention them)
+        b = text.index("{")
+        body = text[b:]
+        body2 = re.sub(r"(?m)^(\s*)(?!pub\b|///|//|#)([A-Za-z_][A-Za-z0-9_]*\s*:)", r"\1pub \2", body)
+        if body2 != body:
+            asm.rewrites.append(("R7 struct fields made pub", "%s %s" % (x.file, x.name)))
+        text = text[:b] + body2
     if x.add_derive:
         text = "#[derive(%s)]\n" % x.add_derive + text
     # doc comments are harmless; keep verbatim
